@@ -11,6 +11,7 @@
 import ALV.Lemmas.C18Round
 import ALV.Lemmas.C18Norm
 import ALV.Lemmas.C18Surj
+import ALV.Lemmas.C18Res
 import ALV.Common.Audit
 
 namespace ALV.Props.C18
@@ -137,6 +138,138 @@ theorem wav_lazy_and_closed (channels sw fs : Nat) (data : Bytes) (k : Nat) :
 
 example : (wavTake 1 2 2 2 ⟨[1, 0, 2, 0], [], false⟩).2.closed = false
     ∧ (wavTake 1 2 2 3 ⟨[1, 0, 2, 0], [], false⟩).2.closed = true := by decide
+
+
+/-! ## the file life-cycle (resource clause: "the file is closed once the stream is exhausted")
+
+  Handle table of the process = `pre` (whatever exists before the call, the caller's own file object
+  included) followed by what the stream opens.  `g` is the complete run of the stream as the value
+  model computes it (`(wavStream f keep).gen`); a history is any list of `next()` calls and
+  collections of the stream object. -/
+
+section resources
+variable {β : Type} (g : Gen β WavErr)
+
+/-- **C18.17** a stream opened BY NAME, any history: the stream opened exactly one handle (the table is
+`pre ++ [h]`, so every other handle of the process is untouched); `close()` reached it at most once
+and it is never abandoned to the runtime (no ResourceWarning); it is open iff nobody closed it; once
+a `next()` returned StopIteration or raised a decoding error — the stream object still alive — or
+once the stream object was collected, it is closed, by exactly one `close()`, and `getfp()` is None;
+before that it is open (never closed early). -/
+theorem res_name_closed_exactly_once (pre : List Handle) (evs : List Ev) :
+    ∃ s0, construct .name true pre = .ok s0 ∧
+      let r := rRun g false evs s0
+      ∃ h, r.2.handles = pre ++ [h] ∧ h.owner = .stream ∧ h.closeCalls ≤ 1 ∧ h.abandoned = false
+        ∧ (h.isOpen = true ↔ h.closeCalls = 0)
+        ∧ ((ended r.1 = true ∨ Ev.collect ∈ evs) → h.isOpen = false ∧ h.closeCalls = 1 ∧ r.2.wr.fp = false)
+        ∧ ((ended r.1 = false ∧ Ev.collect ∉ evs) → h.isOpen = true ∧ r.2.wr.fp = true) := by
+  refine ⟨openSt pre 0 false, construct_name_ok pre, ?_⟩
+  rcases rRun_open g pre evs 0 false with ⟨p, st, h1, h2, h3⟩ | ⟨p, st, d, h1, h2⟩
+  · refine ⟨hOpen, by rw [h1]; rfl, rfl, by decide, rfl, by decide, ?_, ?_⟩
+    · rintro (h | h)
+      · rw [h2] at h; cases h
+      · exact absurd h h3
+    · intro _; rw [h1]; exact ⟨rfl, rfl⟩
+  · refine ⟨hClosed, by rw [h1]; rfl, rfl, by decide, rfl, by decide, ?_, ?_⟩
+    · intro _; rw [h1]; exact ⟨rfl, rfl, rfl⟩
+    · rintro ⟨ha, hb⟩
+      rcases h2 with h2 | h2
+      · rw [ha] at h2; cases h2
+      · exact absurd h2 hb
+
+/-- non-vacuity: three samples read by name; after the 4th `next()` the handle is closed once, and
+the later collection (`Wave_read.__del__` calls `close()` again) does not close it a second time -/
+example : (rRun (⟨[1, 2, 3], none⟩ : Gen Nat WavErr) false [.next, .next, .next, .next, .next, .collect]
+      (openSt [Handle.fresh .caller] 0 false)).2.handles
+    = [Handle.fresh .caller, ⟨.stream, false, 1, false⟩] := by decide
+example : (rRun (⟨[1, 2, 3], none⟩ : Gen Nat WavErr) false [.next, .next, .next]
+      (openSt [] 0 false)).2.handles = [⟨.stream, true, 0, false⟩] := by decide
+/-- a truncated file: the decoding error closes the file as well -/
+example : (rRun (⟨[1], some .structLen⟩ : Gen Nat WavErr) false [.next, .next] (openSt [] 0 false))
+    = ([.item 1, .raised .structLen], closedSt [] 1 true false) := by decide
+
+/-- **C18.18** a stream over a file object of the caller or over `io.BytesIO`: no history (not even
+the excluded early error) opens, closes or abandons any handle — the caller's handle is left to the
+caller, as `wave` documents. -/
+theorem res_caller_handle_untouched (src : Source) (hs : src = .fileObj ∨ src = .memory) (early : Bool)
+    (pre : List Handle) (evs : List Ev) :
+    ∃ s0, construct src true pre = .ok s0 ∧ (rRun g early evs s0).2.handles = pre := by
+  rcases hs with rfl | rfl
+  · exact ⟨_, rfl, rRun_no_handle g early evs _ rfl rfl⟩
+  · exact ⟨_, rfl, rRun_no_handle g early evs _ rfl rfl⟩
+
+example : (rRun (⟨[1, 2], none⟩ : Gen Nat WavErr) false [.next, .next, .next, .collect]
+    ⟨0, false, false, false, ⟨true, none⟩, none, [Handle.fresh .caller]⟩).2.handles = [Handle.fresh .caller] := by
+  decide
+
+/-- **C18.19** a constructor that raises leaves no open handle of its own behind: by name the file it
+opened is closed by exactly one `close()` (bad header), every other way nothing was opened; a name
+kind `wave.open` refuses opens nothing. -/
+theorem res_open_failure (pre : List Handle) :
+    construct .name false pre = .error (pre ++ [⟨.stream, false, 1, false⟩])
+      ∧ construct .fileObj false pre = .error pre ∧ construct .memory false pre = .error pre
+      ∧ ∀ ok, construct .refusedName ok pre = .error pre :=
+  ⟨construct_name_fail pre, rfl, rfl, fun _ => rfl⟩
+
+/-- **C18.20** values and resources are one machine: `k` successive `next()` calls on a freshly
+constructed stream (any source) show the first `k` items of `g`, then — once — how `g` ends
+(StopIteration or the decoding error), then StopIteration for ever (a generator dies at its first
+exception). -/
+theorem res_next_values (src : Source) (early : Bool) (pre : List Handle) (s0 : RS)
+    (h0 : construct src true pre = .ok s0) (k : Nat) :
+    (rRun g early (List.replicate k Ev.next) s0).1 = expectObs g k := by
+  have hfresh : s0.pos = 0 ∧ s0.dead = false ∧ s0.dropped = false := by
+    cases src <;> simp [construct] at h0 <;> subst h0 <;> exact ⟨rfl, rfl, rfl⟩
+  have := rRun_nexts_obs g early k s0 hfresh.2.1 hfresh.2.2
+  rw [this, hfresh.1]
+  simp [expectObs]
+
+example : expectObs (⟨[7, 8], some .structLen⟩ : Gen Nat WavErr) 5
+    = [.item 7, .item 8, .raised .structLen, .stop, .stop] := by decide
+
+/-- **C18.22** the point C18.17 excludes (`early`: the error is raised before the reader chain exists —
+`_unpackers[bits]` KeyError for a header whose sample width is not 8/16/24/32): the stream is
+finished after its first `next()`, but the file opened by name STAYS OPEN until the stream object is
+collected; the collection then closes it exactly once.  (Observed on the real code as well.) -/
+theorem res_early_error_keeps_file_open (e : WavErr) (pre : List Handle) (n : Nat) :
+    let g : Gen β WavErr := ⟨[], some e⟩
+    (rRun g true (List.replicate (n + 1) Ev.next) (openSt pre 0 false)).2.handles = pre ++ [hOpen]
+      ∧ (rRun g true (List.replicate (n + 1) Ev.next ++ [Ev.collect]) (openSt pre 0 false)).2.handles
+          = pre ++ [hClosed] := by
+  have step : rNext (⟨[], some e⟩ : Gen β WavErr) true (openSt pre 0 false)
+      = (.raised e, { openSt pre 0 false with started := true, dead := true }) := by
+    simp [rNext, openSt, endObs]
+  have stay : ∀ (m : Nat) (tl : List Ev),
+      (rRun (⟨[], some e⟩ : Gen β WavErr) true (List.replicate m Ev.next ++ tl)
+        { openSt pre 0 false with started := true, dead := true }).2
+      = (rRun (⟨[], some e⟩ : Gen β WavErr) true tl
+        { openSt pre 0 false with started := true, dead := true }).2 := by
+    intro m tl
+    induction m with
+    | zero => rfl
+    | succ m ih =>
+      simp only [List.replicate_succ, List.cons_append, rRun]
+      simpa [rNext, openSt] using ih
+  refine ⟨?_, ?_⟩
+  · have := stay n []
+    simp only [List.append_nil] at this
+    simp only [List.replicate_succ, rRun, step]
+    simp only [openSt, Bool.false_eq_true, if_false] at this ⊢
+    rw [this]; rfl
+  · have := stay n [Ev.collect]
+    simp only [List.replicate_succ, List.cons_append, rRun, step]
+    simp only [openSt, Bool.false_eq_true, if_false] at this ⊢
+    rw [this]
+    simp [rRun, rCollect, wrClose, modifyAt_append_length, hOpen, hClosed, Handle.close, Handle.dealloc]
+
+end resources
+
+/-- **C18.21** for the four widths of the property the stream never ends by the early error, so
+C18.17 (`early = false`) is about every 8/16/24/32-bit file, truncated ones included. -/
+theorem wav_no_early_error {K : Type} [IntCast K] [Div K] (bits : Nat)
+    (hb : bits = 8 ∨ bits = 16 ∨ bits = 24 ∨ bits = 32) (keep : Bool) (samples : List Bytes) :
+    (dataGenerator (K := K) bits keep samples).err ≠ some .noUnpacker :=
+  dataGenerator_no_early bits hb keep samples
 
 /-! ## chunks -/
 
